@@ -13,7 +13,9 @@ import os
 
 LEVEL = "model_checking"
 
-QUICK = ["ImportSort_quick1.cfg", "ImportSort_quick2.cfg", "ImportSort_quick3.cfg"]
+# quick4: two declarations with up to 3 specs in total -- the smallest blocks in which a grouped declaration of
+# two specs FOLLOWS (or precedes) an ungrouped one (quick1 splits at most 2 specs over two declarations)
+QUICK = ["ImportSort_quick1.cfg", "ImportSort_quick2.cfg", "ImportSort_quick3.cfg", "ImportSort_quick4.cfg"]
 THOROUGH = ["ImportSort_quick1.cfg", "ImportSort_thorough3.cfg", "ImportSort_thorough4.cfg", "ImportSort_thorough5.cfg"]
 
 
